@@ -255,7 +255,7 @@ func ampVerdict(in *Input, n int) (bool, string, sandbox.Reply) {
 			}
 			return false, msg, r
 		}
-		if prevSize > 0 && r.AllocMB >= 256 && prev.AllocMB > 0.5 {
+		if prevSize > 0 && size*2 >= prevSize*3 && r.AllocMB >= 256 && prev.AllocMB > 0.5 {
 			exp := math.Log2(r.AllocMB/prev.AllocMB) / math.Log2(float64(size)/float64(prevSize))
 			if exp > 3.5 {
 				*in = cur
